@@ -223,6 +223,18 @@ mut("c20-content-trimmed", "C20", "C20.R6", (CLI, "    let content = Rc::new(con
 mut("c20-current-naive", "C20", "C20.R1", (CLI, ".parse::<chrono::DateTime<chrono::Local>>()\n                .unwrap_or(chrono::Local::now()),", ".parse::<chrono::DateTime<chrono::Utc>>()\n                .map(|t| t.with_timezone(&chrono::Local))\n                .unwrap_or(chrono::Local::now()),"))
 mut("c20-output-appends-newline", "C20", "C20.R4", (CLI, "        f.write_all(output.as_bytes())", "        f.write_all(format!(\"{}\\n\", output).as_bytes())"))
 
+# ---------------------------------------------------------------- C07
+mut("c07-final-flush-plus-one", "C07", "C07.R",
+    (TK, "        Some(_) => match token_kind {", "        Some((byte_pos, _)) => match token_kind {"),
+    (TK, "                end: current,\n                byte_end: source.len(),\n            }),\n            _ => Some(Token {", "                end: current,\n                byte_end: byte_pos + 1,\n            }),\n            _ => Some(Token {"))
+mut("c07-unit-mix-start", "C07", "C07.R3", (TK, "                        start: start_pos,\n                        byte_start: byte_start_pos,\n                        end: current,\n                        byte_end: byte_pos,", "                        start: byte_start_pos,\n                        byte_start: byte_start_pos,\n                        end: current,\n                        byte_end: byte_pos,"))
+mut("c07-value-offsets-disagree", "C07", "C07.R2", (TK, "                        value: &source[byte_start_pos..byte_pos],\n                        kind: token_kind,\n                        start: start_pos,\n                        byte_start: byte_start_pos,\n                        end: current,\n                        byte_end: byte_pos,", "                        value: &source[byte_start_pos..byte_pos],\n                        kind: token_kind,\n                        start: start_pos,\n                        byte_start: byte_start_pos,\n                        end: current,\n                        byte_end: byte_start_pos,"))
+mut("c07-merge-forgets-char-end", "C07", "C07.R2", (TK, "                        last_token.end = cur.end;\n", ""))
+mut("c07-cursors-not-in-tandem", "C07", "C07.R2", (TK, "                start_pos = current;\n                byte_start_pos = byte_pos;", "                byte_start_pos = byte_pos;"))
+mut("c07-char-counter-by-bytes", "C07", "C07.R3", (TK, "(tokens, next_state, byte_start_pos, start_pos, current + 1)", "(tokens, next_state, byte_start_pos, start_pos, current + c.len_utf8())"))
+mut("c07-token-built-in-parser", "C07", "C07.R4", (PA, "    let mut content_parts: Vec<ContentPart<'a, 'b, 'c, 'd>> = vec![];\n", "    let mut content_parts: Vec<ContentPart<'a, 'b, 'c, 'd>> = vec![];\n    let _probe = tokenizer::Token { kind: tokenizer::TokenKind::Text, value: \"\", start: 0, byte_start: 0, end: 0, byte_end: 1 };\n"))
+mut("c07-merge-skipped", "C07", "C07.R4", (TK, "    tokens.into_iter().fold(vec![], |mut acc, cur| {", "    if tokens.len() < 2 {\n        return tokens;\n    }\n    tokens.into_iter().fold(vec![], |mut acc, cur| {"))
+
 # ---------------------------------------------------------------- benign variants (every rule silent)
 benign("b-c05-single-expression", (TL, "if self.current_time < expires.unwrap() {\n            return false;\n        }\n\n        true", "self.current_time >= expires.unwrap()"))
 benign("b-c05-format-shorthand", (TL, 'parse_from_str(&expires_str, "%Y-%m-%d %H:%M:%S %z")', 'parse_from_str(&expires_str, "%F %T %z")'))
